@@ -1,5 +1,11 @@
+import contextlib
 import signal
 from . import ConductorAbort
+
+# While greater than zero, an abort request is remembered instead of being
+# raised right away (see `defer_abort()`).
+_defer_depth = 0
+_abort_pending = False
 
 
 def register_signal_handlers():
@@ -8,4 +14,26 @@ def register_signal_handlers():
 
 
 def _terminate_handler(sig, frame):
+    global _abort_pending  # pylint: disable=global-statement
+    if _defer_depth > 0:
+        _abort_pending = True
+        return
     raise ConductorAbort()
+
+
+@contextlib.contextmanager
+def defer_abort():
+    """
+    Delays a SIGINT/SIGTERM abort until the end of the `with` block. Used
+    around code that must not be interrupted half-way (e.g., between starting a
+    process and recording that it was started).
+    """
+    global _defer_depth, _abort_pending  # pylint: disable=global-statement
+    _defer_depth += 1
+    try:
+        yield
+    finally:
+        _defer_depth -= 1
+        if _defer_depth == 0 and _abort_pending:
+            _abort_pending = False
+            raise ConductorAbort()
